@@ -30,7 +30,7 @@ type c03Asm struct {
 	fixups map[int]string
 }
 
-var c03Opcodes = map[string]byte{"STOP": 0x00, "ADD": 0x01, "GT": 0x11, "EQ": 0x14, "SLOAD": 0x54, "SSTORE": 0x55, "ISZERO": 0x15, "AND": 0x16, "SHR": 0x1c, "CALLDATALOAD": 0x35,
+var c03Opcodes = map[string]byte{"STOP": 0x00, "ADD": 0x01, "GT": 0x11, "MSTORE": 0x52, "EQ": 0x14, "SLOAD": 0x54, "SSTORE": 0x55, "ISZERO": 0x15, "AND": 0x16, "SHR": 0x1c, "CALLDATALOAD": 0x35,
 	"CALLDATASIZE": 0x36, "CALLDATACOPY": 0x37, "CODECOPY": 0x39, "POP": 0x50, "JUMP": 0x56, "JUMPI": 0x57, "GAS": 0x5a, "JUMPDEST": 0x5b,
 	"LOG1": 0xa1, "DUP1": 0x80, "DUP2": 0x81, "DUP3": 0x82, "DUP5": 0x84, "DUP6": 0x85, "DUP8": 0x87, "SWAP2": 0x91, "CALL": 0xf1, "RETURN": 0xf3, "REVERT": 0xfd}
 
